@@ -489,6 +489,11 @@ def _guards(run, prog, et, accept_rule=None):
                         if contains(c, lambda s_: s_[0] == "attr" and s_[1] == ("self", PROTO)):
                             free_state.add(show(c)[:80])
                             continue
+                        # ... or about the content of the decoded message (its flags, its entries): what is done with a
+                        # message that passed the filter is not this rule's subject - either outcome is explored
+                        if contains(c, lambda s_: s_[0] == "call" and s_[1][0] == "bound" and s_[1][2] == hp.qual):
+                            free_state.add(show(c)[:80])
+                            continue
                         raise
                 if ok_path:
                     hits.append(p)
